@@ -15,6 +15,9 @@ import (
 
 func init() { commands["scan-dump"] = cmdScanDump }
 
+// how long one file may take in the builder before it is called a stall
+const stallAfter = 40 * time.Second
+
 // buildOne runs the real builder on one (path, bytes) with panic recovery.
 func buildOne(root *sitter.Node, src []byte, path string) (g *graph.CodeGraph, panicked string) {
 	defer func() {
@@ -77,7 +80,25 @@ func cmdScanDump(args []string) int {
 		fmt.Fprintf(cw, "CASE %s\nPATH %s\nSRC %s\n", id, hx(path), hx(string(src)))
 		dumpCST(cw, root, "")
 		t0 := time.Now()
-		g, p := buildOne(root, src, path)
+		// a builder that does not come back within the deadline is reported as a stall; the remaining cases are
+		// then skipped (the goroutine cannot be stopped): the caller runs them in a new process
+		type built struct {
+			g *graph.CodeGraph
+			p string
+		}
+		ch := make(chan built, 1)
+		go func() { g_, p_ := buildOne(root, src, path); ch <- built{g_, p_} }()
+		var g *graph.CodeGraph
+		var p string
+		select {
+		case b := <-ch:
+			g, p = b.g, b.p
+		case <-time.After(stallAfter):
+			fmt.Fprintf(iw, "CASE %s\nTIME %d\nOUTCOME stall\nENDCASE\nSTALLED %s\n", id, time.Since(t0).Milliseconds(), id)
+			iw.Flush()
+			cw.Flush()
+			os.Exit(3)
+		}
 		fmt.Fprintf(iw, "CASE %s\n", id)
 		fmt.Fprintf(iw, "TIME %d\n", time.Since(t0).Milliseconds())
 		if p != "" {
